@@ -41,7 +41,8 @@ for d in sorted(glob.glob("/verif/seeded/C*")):
     finally:
         sh(f"git -C /repo worktree remove --force {wt}"); shutil.rmtree(wt, ignore_errors=True)
     print(rows[-1], flush=True)
-with open("/verif/seeded/REGRESSION.md", "w") as f:
+suffix = ("-" + sel) if sel else ""
+with open("/verif/seeded/REGRESSION" + suffix + ".md", "w") as f:
     f.write(f"# Seeded changes re-run against repository head {head}\n\n| change | recorded | now | |\n|---|---|---|---|\n")
     for r in rows:
         f.write("| " + " | ".join(r) + " |\n")
